@@ -315,8 +315,13 @@ func caseScalar(a *algoSpec, k *big.Int) {
 }
 
 // caseAgg: aggregated BLS private key = sum of scalars mod r; its public key = sum x g2.
-func caseAgg(a *algoSpec, ks []*big.Int) {
-	rp := replay{Kind: "aggregate", Algo: a.name}
+func caseAgg(a *algoSpec, ks []*big.Int) { caseAggPattern(a, ks, 0) }
+
+// caseAggPattern: bit i of `cached` set = PublicKey() of input key i is called BEFORE the
+// aggregation (the public key of a private key is computed lazily and cached, so the history of
+// PublicKey() calls on the inputs is part of the input of AggregateBLSPrivateKeys).
+func caseAggPattern(a *algoSpec, ks []*big.Int, cached uint) {
+	rp := replay{Kind: "aggregate", Algo: a.name, Content: fmt.Sprintf("public-key-cached-pattern=%b", cached)}
 	defer guard(a, &rp)
 	sum := new(big.Int)
 	var keys []crypto.PrivateKey
@@ -328,6 +333,11 @@ func caseAgg(a *algoSpec, ks []*big.Int) {
 		}
 		keys = append(keys, sk)
 		sum.Add(sum, k)
+	}
+	for i := range keys {
+		if cached&(1<<uint(i)) != 0 {
+			keys[i].PublicKey()
+		}
 	}
 	sum.Mod(sum, a.order)
 	agg, err := crypto.AggregateBLSPrivateKeys(keys)
@@ -342,7 +352,7 @@ func caseAgg(a *algoSpec, ks []*big.Int) {
 		run.Violation(fmt.Sprintf("aggregate:BLS:%s:scalar-mismatch", scalarClass(sum, a.order)), "aggregated private key is not the sum of the scalars mod r", rp)
 	}
 	checkPub(a, agg, sum, "aggregated", rp)
-	run.Distinct(fmt.Sprintf("agg/%v", rp.Scalars))
+	run.Distinct(fmt.Sprintf("agg/%v/%b", rp.Scalars, cached))
 }
 
 func pow2(e uint, add int64) *big.Int {
@@ -357,6 +367,15 @@ func scalarSet(a *algoSpec) []*big.Int {
 	for z := 1; z <= 31; z++ {
 		top := uint(8 * (32 - z))
 		set = append(set, pow2(top-8, int64(z)), pow2(top-1, int64(z)))
+	}
+	// byte-sparse scalars: a single non-zero byte at each of the 32 byte positions (b * 256^j) and
+	// every count of TRAILING zero bytes under a two-byte head — where a scalar-to-bytes helper
+	// that confuses byte order, or drops zero bytes at either end, goes wrong
+	for j := uint(0); j < 32; j++ {
+		for _, b := range []int64{1, 5, 0x55, 0x73, 0xff} {
+			set = append(set, new(big.Int).Lsh(big.NewInt(b), 8*j))
+		}
+		set = append(set, new(big.Int).Lsh(big.NewInt(0x0102), 8*j))
 	}
 	seen := map[string]bool{}
 	var out []*big.Int
@@ -389,7 +408,7 @@ func main() {
 		blsStride, nContents = 1, 12 // 8 further SHA-256-chain contents
 	}
 	run.Set("rule", fmt.Sprintf("algorithms {BLS, P-256, secp256k1} x every seed length 0..300 (plus the nil seed) x contents {zeros, 0xff, counter, SHA-256 chain of VERIF_SEED; thorough: 8 more chains}: outside 32..256 an invalid-inputs error is required, inside the Encode() bytes must equal the reference derivation (BLS: IETF KeyGen draft-05 2.3 over refsha2.HKDF256 incl. salt re-hash loop; ECDSA: HKDF to 48 bytes, mod (n-1) + 1), be in [1, order-1], and a second call must give the same bytes. "+
-		"Public keys: every generated ECDSA key and every generated BLS key whose seed length is a multiple of %d (and lengths 32, 33, 255, 256), every decoded scalar of {1,2,255,256,2^128,order-1,order-2, 2^232+5, 2^240+7, 2^247+1, ..., all counts 1..31 of leading zero bytes with first byte 0x01 and 0x80}, every aggregated BLS key of a fixed list of scalar tuples (incl. sum = 0 and sum wrapping mod r): PublicKey().Encode() = scalar x generator by refecdsa/refbls and repeated PublicKey() calls are Equal. "+
+		"Public keys: every generated ECDSA key and every generated BLS key whose seed length is a multiple of %d (and lengths 32, 33, 255, 256), every decoded scalar of {1,2,255,256,2^128,order-1,order-2, 2^232+5, 2^240+7, 2^247+1, ..., all counts 1..31 of leading zero bytes with first byte 0x01 and 0x80, byte-sparse scalars b*256^j for every byte position j and b in {1,5,0x55,0x73,0xff,0x0102}}, every aggregated BLS key of a fixed list of scalar tuples (incl. sum = 0 and sum wrapping mod r) and, for tuples of 2-4 keys, under EVERY pattern of which input keys already had PublicKey() called (lazy public-key cache): PublicKey().Encode() = scalar x generator by refecdsa/refbls and repeated PublicKey() calls are Equal. "+
 		"A case is distinct by (algorithm, seed length, content) for in-range derivations, by (algorithm, scalar) for decoded keys, by scalar tuple for aggregated keys; rejected lengths are not counted as distinct.", blsStride))
 	run.Set("seed_lengths", "0..300")
 	run.Set("seed_contents", []string{"zeros", "0xff", "counter", "seed-derived"})
@@ -454,6 +473,19 @@ func main() {
 		{pow2(254, 0), pow2(254, 0)}, {rm1, rm1, rm1, rm1},
 	}
 	ev.Par(len(tuples), func(i int) { caseAgg(bls, tuples[i]) })
+	// every pattern of "PublicKey() already called" over the inputs, for tuples of 2, 3 and 4 keys
+	type aggJob struct {
+		t []*big.Int
+		c uint
+	}
+	var ajobs []aggJob
+	for _, t := range [][]*big.Int{{g1, g2}, {g1, g2, rm1}, {g1, g2, two, pow2(200, 3)}, {g1, new(big.Int).Sub(blsOrder, g1)}, {g1, g2, new(big.Int).Sub(blsOrder, g1)}} {
+		for c := uint(1); c < 1<<uint(len(t)); c++ {
+			ajobs = append(ajobs, aggJob{t, c})
+		}
+	}
+	ev.Par(len(ajobs), func(i int) { caseAggPattern(bls, ajobs[i].t, ajobs[i].c) })
+	run.Set("aggregated_tuples_with_cache_patterns", len(ajobs))
 	run.Set("aggregated_tuples", len(tuples))
 	run.Sample(replay{Kind: "aggregate", Algo: "BLS", Scalars: []string{ev.Hex(b32(rm1)), ev.Hex(b32(two))}, Expected: "scalar 1, public key g2", Got: "same"})
 
